@@ -107,13 +107,15 @@ def run(ctx, out):
         out.violation("the peak grows with the tree: %d descriptors for 300 files, %d for 1500" % (pk300[0], pk1500[0]),
                       dict(peaks=(pk300[0], pk1500[0])))
     # (b) parfile
-    for w in ((2, 8) if quick else (1, 2, 8, 32)):
-        d = os.path.join(d0, "pf_%d" % w)
+    for w, extra in (((2, []), (8, []), (4, ["--fsync"]), (2, ["--fsync", "--ownership"])) if quick else
+                     ((1, []), (2, []), (8, []), (32, []), (1, ["--fsync"]), (4, ["--fsync"]), (16, ["--fsync", "--ownership"]),
+                      (4, ["--no-perms", "--no-timestamps"]), (4, ["--backup", "numbered"]))):
+        d = os.path.join(d0, "pf_%d_%d" % (w, len(extra)))
         os.makedirs(d)
         make_tree(os.path.join(d, "src"), 300, 100)
-        argv = [ctx.bins["xcp"], "-r", "--driver", "parfile", "-w", str(w), "src", "dst"]
+        argv = [ctx.bins["xcp"], "-r", "--driver", "parfile", "-w", str(w)] + extra + ["src", "dst"]
         r = xcp.run_supervised(sup, argv, d, d, seed=w, hold_permille=100, hold_maxms=3, tag="p", timeout_ms=120000, nofile=1024)
-        out.case(("parfile", w), True)
+        out.case(("parfile", w, tuple(extra)), True)
         out.count("parfile_runs")
         pk = peak_open(r, d)
         if r.exit != 0:
@@ -127,10 +129,11 @@ def run(ctx, out):
     os.makedirs(d)
     make_tree(os.path.join(d, "src"), big, 64)
     import resource
-    for driver, w in ([("parblock", 64), ("parblock", 2), ("parfile", 64)] if quick else
-                      [("parblock", 64), ("parblock", 16), ("parblock", 1), ("parfile", 64), ("parfile", 4)]):
+    for driver, w, extra in ([("parblock", 64, []), ("parblock", 2, ["--fsync"]), ("parfile", 64, []), ("parfile", 4, ["--fsync"])] if quick else
+                             [("parblock", 64, []), ("parblock", 16, ["--fsync"]), ("parblock", 1, []), ("parfile", 64, []),
+                              ("parfile", 4, ["--fsync"]), ("parfile", 1, ["--fsync", "--ownership"]), ("parblock", 4, ["--backup", "numbered"])]):
         shutil.rmtree(os.path.join(d, "dst"), ignore_errors=True)
-        argv = [ctx.bins["xcp"], "-r", "--driver", driver, "-w", str(w), "src", "dst"]
+        argv = [ctx.bins["xcp"], "-r", "--driver", driver, "-w", str(w)] + extra + ["src", "dst"]
         import subprocess
         try:
             p = subprocess.run(argv, cwd=d, capture_output=True, timeout=600, env=dict(os.environ, RUST_BACKTRACE="0"),
@@ -138,7 +141,7 @@ def run(ctx, out):
             code, err = p.returncode, p.stderr.decode("utf-8", "replace")
         except subprocess.TimeoutExpired:
             code, err = 124, "timeout"
-        out.case(("nofile1024", driver, w, big), True)
+        out.case(("nofile1024", driver, w, big, tuple(extra)), True)
         out.count("rlimit_runs")
         ncopied = sum(len(fs) for _, _, fs in os.walk(os.path.join(d, "dst")))
         if code != 0 or ncopied != big:
